@@ -1,5 +1,6 @@
 import RxProofs.Lemmas.SubjThm
 import RxProofs.Lemmas.SubjNat
+import RxProofs.Lemmas.SubjFlat
 import RxProofs.Lemmas.SubjOrder
 /-!
 # C20 — a Subject broadcasts to exactly the observers subscribed at the time
@@ -72,6 +73,18 @@ theorem received_in_call_order {cfg : Cfg} {v : Option α} (hv : InitOK cfg v) (
     (ag.filterMap deliverId).Nodup :=
   let o := reachable_oinv hv hk h
   ⟨o.sub, o.pend, o.distinct⟩
+
+/-- **flat_history_closed_form.**  When callbacks only record (no reactions; every observer has an
+`on_error` handler) observers do not interact, and after *any* history — any length, any mix of
+`sub/unsub/next/error/completed/dispose` — observer `i` has seen exactly what its own three-state reading
+(`fresh → live → done`, `Subj.flatStep`) of that history says: every notification accepted while it is
+subscribed-and-not-unsubscribed, in call order, each once; only the terminal if it subscribes after
+termination; only `DisposedException` if it subscribes after `dispose()`.  (`fuel` only has to be large
+enough to run the history: twice its length plus four.) -/
+theorem flat_history_closed_form {cfg : Cfg} (hc : FlatCfg cfg) (i : Id) (calls : List (Call α)) (fuel : Nat)
+    (hf : 2 * calls.length + 4 ≤ fuel) :
+    (run cfg fuel (init cfg none) calls).1.log i = flatLog i {} calls :=
+  run_flat hc i calls fuel hf
 
 /-- What the user of observer `i` has seen is what its AutoDetachObserver was handed (minus errors
 when it has no `on_error` handler: those are raised by `default_error`). -/
@@ -177,6 +190,13 @@ example : exRun.1.xlog = [(2, "DisposedException")] := by decide
 example : exRun.2 = [none, none, none, none, none, some "DisposedException", none, none] := by decide
 example : exRun.1.oof = false := by decide
 example : emits exRun.1.tr = [.next 7, .next 8] ∧ recvs 4 exRun.1.tr = [.next 8] := by decide
+/-- the closed form on a concrete flat history: 1 subscribes between `1` and `2`, is unsubscribed before `3` -/
+example : flatLog 1 {} [Call.sub 0, .next 1, .sub 1, .next 2, .unsub 1, .next 3, .completed, .sub 2, .sub 1] =
+    [Notif.next 2] := by decide
+example : flatLog 2 {} [Call.sub 0, .next 1, .sub 1, .next 2, .unsub 1, .next 3, .completed, .sub 2, .sub 1] =
+    [Notif.completed] := by decide
+example : flatLog 0 {} [Call.sub 0, .next 1, .sub 1, .next 2, .unsub 1, .next (3 : Nat), .completed, .sub 2, .sub 1] =
+    [.next 1, .next 2, .next 3, .completed] := by decide
 /-- the hypotheses of `late_gets_terminal_only` are satisfiable -/
 example : (run { exCfg with react := fun _ _ => [] } 100 (init exCfg (none : Option Nat))
     [.sub 0, .next 1, .error "boom", .sub 1, .next 2]).1.log 1 = [.error "boom"] := by decide
